@@ -401,7 +401,6 @@ fn check_req4(b: &[u8], tr: Tr, acc: &mut Acc, want_obs: bool) {
         Parse4::Complete { host: Host4::Ip(_), .. } => "complete.socks4",
         Parse4::Complete { host: Host4::Domain(_), .. } => "complete.socks4a",
         Parse4::Incomplete => "truncated",
-        Parse4::Outside => "outside-conventions",
     };
     acc.c(&format!("req4.{cls}.{}", run.out.kind()));
     if let Out::Panic(m) = &run.out {
@@ -413,7 +412,6 @@ fn check_req4(b: &[u8], tr: Tr, acc: &mut Acc, want_obs: bool) {
         return;
     }
     match (&want, &run.out) {
-        (Parse4::Outside, _) => {} // only "no panic, terminates" is demanded
         (Parse4::Complete { cmd, host, port, used, user_len }, Out::Ok((gc, ga, gp))) => {
             let (host_ok, hcls, hdesc) = match host {
                 Host4::Ip(o) => (ga.as_slice() == rf::dotted(*o).as_bytes(), "socks4", rf::dotted(*o)),
@@ -1200,7 +1198,7 @@ pub fn run(args: &Args) -> Report {
     rep.extra.insert("classes".into(), json!(total.cls));
     rep.extra.insert("build_profile".into(), json!(if cfg!(debug_assertions) { "checked" } else { "release" }));
     rep.assumptions.push("reference grammar written from RFC 1928 §3-§7 and the SOCKS4/SOCKS4a notes; IPv6 text returned by the readers is accepted in any RFC 4291 spelling of the same 16 octets".into());
-    rep.assumptions.push("lenient by design (either an error or the exact fields is accepted): non-zero RSV, undefined CMD/CD values, an empty SOCKS4a domain; DSTIP in 0.0.0.0/8 other than 0.0.0.x (x != 0) only has to terminate without panic; DSTPORT/DSTIP of a SOCKS4 reply are not compared (ignored by clients for CONNECT)".into());
+    rep.assumptions.push("lenient by design (either an error or the exact fields is accepted): non-zero RSV, undefined CMD/CD values, an empty SOCKS4a domain; DSTPORT/DSTIP of a SOCKS4 reply are not compared (ignored by clients for CONNECT)".into());
     rep.assumptions.push("bytes of addresses/strings beyond the listed fillings are not enumerated (the readers do not branch on them, except NUL which every filling class covers)".into());
     rep.sample(json!({"socks5_request": hex(&rf::build_request5(5, 1, 0, 3, &Addr::Domain(b"a.0".to_vec()).field(), 0xffff)), "fed": "whole, +trailers, every prefix; 5 transports"}));
     rep.sample(json!({"socks4a_request_after_VN": hex(&rf::build_request4(1, 0x50, [0, 0, 0, 1], b"a", Some(b"www.example.com"))), "fed": "whole, +trailers, every prefix; 6 transports"}));
